@@ -114,6 +114,12 @@ def threads():
     for t in threading.enumerate():
         if t is main:
             continue
+        nid = getattr(t, "native_id", None)
+        if nid is not None and not os.path.exists("/proc/self/task/%d" % nid):
+            # bookkeeping entry without an OS thread: CPython (< 3.13) never removes the _DummyThread it creates
+            # when threading.current_thread() is called in a thread that has already left threading._active
+            # (e.g. from a __del__ that runs while the thread is being torn down)
+            continue
         out[t.ident] = "%s(%s%s)" % (type(t).__name__, (t.name or "")[:80], ",daemon" if t.daemon else "")
     return out
 
@@ -168,6 +174,7 @@ def snapshot(XSH, tty_fd=None, live=False):
         "environ": dict(os.environ),
         "std_ids": [id(x) for x in std],
         "std_types": [type(x).__name__ for x in std],
+        "std_closed": [_is_closed(x) for x in std],
         "handler_ids": {k: id(v) for k, v in hs.items()},
         "handler_descr": {k: describe_handler(v) for k, v in hs.items()},
     }
@@ -187,6 +194,13 @@ def snapshot(XSH, tty_fd=None, live=False):
         except Exception as e:  # noqa: BLE001
             snap["termios"] = "error:%s" % type(e).__name__
     return snap
+
+
+def _is_closed(f):
+    try:
+        return bool(f.closed)
+    except Exception:  # noqa: BLE001
+        return None
 
 
 def _cwd():
@@ -285,6 +299,10 @@ def diff_state(before, after, env_ignore=()):
     for i, name in enumerate(("stdin", "stdout", "stderr")):
         if before["std_ids"][i] != after["std_ids"][i]:
             probs.append("sys.%s replaced: %s -> %s" % (name, before["std_types"][i], after["std_types"][i]))
+    for i, name in enumerate(("stdin", "stdout", "stderr")):
+        # the *original* object (kept alive by the baseline snapshot), whatever sys.<name> is bound to now
+        if before["std_closed"][i] is False and _is_closed(before["_std"][i]) is not False:
+            probs.append("closed sys.%s: the stream object of the shell itself is closed now" % name)
     for s in SIGS:
         if before["handler_ids"][s] != after["handler_ids"][s]:
             probs.append("handler %s: %s -> %s" % (s, before["handler_descr"][s], after["handler_descr"][s]))
